@@ -39,7 +39,7 @@ def total_ff(atoms):
 
 
 contract(
-    "pdb2pqr.residue:Residue.charge", "C02",
+    "pdb2pqr.residue:Residue.charge", ["C02", "C12", "C16"],
     params={"self": Obj("pdb2pqr.residue:Residue", atoms=Items(ATOMQ(0), ATOMQ(1), ATOMQ(2)))},
     requires=[],
     ensures=[
@@ -49,6 +49,24 @@ contract(
     modifies=[],
     name="Residue.charge",
 )
+
+# ... and it is the CURRENT sum: ligand parameters are written into the atoms after the force field pass has already asked
+# for the residue's charge once (apply_force_field, then the --ligand block of non_trivial, then the integrality guard:
+# C12 "non-integral total charge terminates with an error").  Ask, change one atom's charge, ask again.
+BIND["Residue"] = "pdb2pqr.residue:Residue"
+
+
+@harness(["C02", "C12", "C16"],
+         params={"res": Obj("pdb2pqr.residue:Residue", atoms=Items(Named("qa", Obj("pdb2pqr.structures:Atom", ffcharge=Opt(Real), name=Const("C1"))),
+                                                                   Named("qb", Obj("pdb2pqr.structures:Atom", ffcharge=Opt(Real), name=Const("O1"))))),
+                 "q": Real},
+         requires=[],
+         ensures=["abs(result - total_ff(res.atoms)) <= Fraction(1, 20000)", "qa.ffcharge == q"],
+         name="Residue.charge.after_update", native=False)
+def charge_after_update(res, q):
+    first = res.charge
+    res.atoms[0].ffcharge = q
+    return res.charge
 
 # ---------------------------------------------------------------- state naming (aa.py)
 # state-qualified force-field key = terminus prefix + side-chain state name
@@ -234,7 +252,7 @@ def XYZ(name, **kw):
 def AMINO(i, cls="ALA", nbonds=("CA",)):
     return Named(f"r{i}", Obj(f"pdb2pqr.aa:{cls}", name=Const(cls), is_n_term=Const(0), is_c_term=Const(0),
                               patches=Items(),
-                              map=DictOf(("N", Named(f"n{i}", XYZ("N", bonds=Items(*[XYZ(b) for b in nbonds])))),
+                              map=DictOf(("N", Named(f"n{i}", XYZ("N", bonds=Items(*[XYZ(b, element=Enum("", b[0])) for b in nbonds])))),
                                          ("C", Named(f"c{i}", XYZ("C"))))))
 
 
@@ -294,6 +312,9 @@ def _termini(name, residues, last_amino, first_nbonds_heavy, extra_ens=()):
 
 
 _termini("aaa", [AMINO(0), AMINO(1), AMINO(2)], 2, 1)
+# a chain cut from an already protonated structure: the first residue carries its amide hydrogen (named H).  Hydrogens are
+# not "heavy" neighbours of N whatever the element column of the file says (it may be blank: element '')
+_termini("amide_h_first", [AMINO(0, "ALA", ("CA", "H")), AMINO(1), AMINO(2)], 2, 1)
 _termini("pro_first", [AMINO(0, "PRO", ("CA", "CD")), AMINO(1), AMINO(2)], 2, 2)
 _termini("water_last", [AMINO(0), AMINO(1), WATER(2)], 1, 1, ["len(r2.patches) == 0"])
 _termini("capped", [AMINO(0), AMINO(1), CAP(2, "NME")], None, 1,
